@@ -55,6 +55,8 @@ pub enum HStep {
 	Reject,
 	DropPending,
 	Send,
+	/// send a notification too large for the connection's socket buffer (the writer stalls unless the peer reads)
+	SendBig,
 	TrySend,
 	IsClosed,
 	AwaitClosed,
@@ -92,6 +94,8 @@ pub enum PeerAct {
 	Pong,
 	/// a Ping control frame (the server answers with a Pong)
 	Ping,
+	/// stop reading from the socket but keep it open: the server's writer stalls once the socket buffer is full
+	StopReading,
 }
 
 #[derive(Clone, Debug, PartialEq)]
@@ -257,11 +261,16 @@ fn methods(ctx: Ctx) -> Methods {
 					drop(pending.take());
 					sched::log(format!("{tag}:drop-pending"));
 				}
-				HStep::Send | HStep::SendVia(_) | HStep::TrySend => {
+				HStep::Send | HStep::SendVia(_) | HStep::TrySend | HStep::SendBig => {
 					let via = if let HStep::SendVia(i) = step { *i } else { sinks.iter().position(|s| s.is_some()).unwrap_or(0) };
 					if let Some(Some(s)) = sinks.get_mut(via) {
 						n += 1;
-						let msg = SubscriptionMessage::from(serde_json::value::to_raw_value(&n).unwrap());
+						let msg = if *step == HStep::SendBig {
+							// larger than the in-memory socket buffer (64 kB per direction)
+							SubscriptionMessage::from(serde_json::value::to_raw_value(&format!("{n}:{}", "x".repeat(200_000))).unwrap())
+						} else {
+							SubscriptionMessage::from(serde_json::value::to_raw_value(&n).unwrap())
+						};
 						sched::log(format!("{tag}:send:{n}:begin"));
 						let ok = if *step == HStep::TrySend { s.try_send(msg).is_ok() } else { s.send(msg).await.is_ok() };
 						sched::log(format!("{tag}:send:{n}:{}", if ok { "ok" } else { "err" }));
@@ -516,7 +525,17 @@ async fn ws_peer<IO: tokio::io::AsyncRead + tokio::io::AsyncWrite + Unpin + Send
 				buf.clear();
 				match receiver.receive(&mut buf).await {
 					Ok(soketto::Incoming::Data(_)) => {
-						let txt = String::from_utf8_lossy(&buf).to_string();
+						let mut txt = String::from_utf8_lossy(&buf).to_string();
+						if txt.len() > 4096 {
+							// a SendBig payload "<n>:xxxx…": logged as the notification with result n
+							if let Ok(mut v) = serde_json::from_str::<Value>(&txt) {
+								let n = v["params"]["result"].as_str().and_then(|r| r.split(':').next()).and_then(|d| d.parse::<u64>().ok());
+								if let Some(n) = n {
+									v["params"]["result"] = json!(n);
+									txt = v.to_string();
+								}
+							}
+						}
 						sched::log(format!("c{c}:rx:{txt}"));
 						if let Ok(v) = serde_json::from_str::<Value>(&txt) {
 							// response to the j-th subscribe: id "s<j>"
@@ -540,6 +559,7 @@ async fn ws_peer<IO: tokio::io::AsyncRead + tokio::io::AsyncWrite + Unpin + Send
 	let mut nsub = 0usize;
 	let mut ncall = 0usize;
 	let mut alive = true;
+	let mut stalled = false;
 	for (k, act) in script.into_iter().enumerate() {
 		// an unsubscribe needs the subscription id the server assigned: wait for that response first
 		let wait_for = match &act {
@@ -604,6 +624,12 @@ async fn ws_peer<IO: tokio::io::AsyncRead + tokio::io::AsyncWrite + Unpin + Send
 				sched::log(format!("c{c}:tx:{}{}", if act == PeerAct::Pong { "PONG" } else { "PING" }, if r.is_err() || f.is_err() { ":failed" } else { "" }));
 				None
 			}
+			PeerAct::StopReading => {
+				sched::log(format!("c{c}:stops-reading"));
+				reader.abort();
+				stalled = true;
+				None
+			}
 			PeerAct::Garbage => {
 				sched::log(format!("c{c}:tx:GARBAGE"));
 				// a text frame with invalid UTF-8 is a protocol error
@@ -617,6 +643,10 @@ async fn ws_peer<IO: tokio::io::AsyncRead + tokio::io::AsyncWrite + Unpin + Send
 				sched::log(format!("c{c}:tx-failed"));
 			}
 		}
+	}
+	if stalled {
+		// keep the socket open without reading, for the rest of the execution
+		std::future::pending::<()>().await;
 	}
 	if alive {
 		// keep the connection open until the server closes it
